@@ -126,6 +126,26 @@ def formulas(vars_, depth):
     return out
 
 
+def sdd_partitions(vars_):
+    """Multi-element SDD decisions: primes are themselves decisions over {v, w} forming a partition, subs range over u."""
+    vars_ = tuple(vars_)
+    out = []
+    for v in vars_:
+        for w in vars_:
+            if w == v:
+                continue
+            rest = [u for u in vars_ if u not in (v, w)]
+            subs = [("top",), ("bot",)] + ([("lit", rest[0]), ("neg", rest[0])] if rest else [])
+            prime_sets = [
+                [("dec", v, ("lit", w), ("bot",)), ("dec", v, ("neg", w), ("bot",)), ("neg", v)],
+                [("dec", v, ("lit", w), ("neg", w)), ("dec", v, ("neg", w), ("lit", w))],
+            ]
+            for primes in prime_sets:
+                for combo in itertools.product(subs, repeat=len(primes)):
+                    out.append(("or", [("and", [p, s_]) for p, s_ in zip(primes, combo)]))
+    return out
+
+
 def _ordered_partitions(vars_, k):
     vars_ = list(vars_)
     res = []
@@ -196,6 +216,11 @@ def formula_to_sdd_text(f):
         elif t == "dec":
             p1 = rec(("lit", g[1])); s1 = rec(g[2]); p2 = rec(("neg", g[1])); s2 = rec(g[3])
             lines.append(f"D {i} 0 2 {p1} {s1} {p2} {s2}")
+        elif t == "or" and all(h[0] == "and" and len(h[1]) == 2 for h in g[1]):
+            ids_ = []
+            for h in g[1]:
+                ids_ += [rec(h[1][0]), rec(h[1][1])]
+            lines.append(f"D {i} 0 {len(g[1])} " + " ".join(map(str, ids_)))
         else:
             raise ValueError("conjunctions are not SDD elements")
         return i
@@ -206,7 +231,9 @@ def formula_to_sdd_text(f):
 
 def sdd_able(f):
     t = f[0]
-    if t in ("and", "or"):
+    if t == "or":
+        return all(h[0] == "and" and len(h[1]) == 2 and sdd_able(h[1][0]) and sdd_able(h[1][1]) for h in f[1])
+    if t == "and":
         return False
     if t == "dec":
         return sdd_able(f[2]) and sdd_able(f[3])
@@ -264,6 +291,12 @@ def cases(tier, seed):
             if k not in seen:
                 seen.add(k)
                 yield {"kind": "logic", "formula": f, "via": "graph"}
+        for f in sdd_partitions(tuple(range(nv))):
+            k = repr(f)
+            if k not in seen:
+                seen.add(k)
+                yield {"kind": "logic", "formula": f, "via": "graph"}
+                yield {"kind": "logic", "formula": f, "via": "sdd"}
 
 
 def _tup(f):
